@@ -133,7 +133,8 @@ void get_reg_str(char *opd_str, char *reg) {
       reg = NULL;
       break;
     }
-    if (i > 0 && opd_str[i] == 'x' && opd_str[i - 1] == '0')
+    // hex prefix of a displacement, not the letter x inside a register name
+    if (j == 0 && i > 0 && opd_str[i] == 'x' && opd_str[i - 1] == '0')
       break;
     if (j > 0 &&
         (IN_RANGE(opd_str[i], 'a', 'z') || IN_RANGE(opd_str[i], '0', '9')))
